@@ -177,11 +177,6 @@ Definition when (b : bool) (m : Mst unit) : Mst unit := if b then m else ret tt.
 (* ---------- c3d::updateHeader ---------- *)
 (* have_data is false only while a file is being loaded (the data section is not built yet) *)
 Definition update_header (have_data : bool) : Mst unit :=
-  fz <- int0 10 nm_POINT nm_FRAMES ;;
-  s <- getS ;;
-  when (negb (z_to_usize fz =? h_nb_frames (hdr s)))
-       (fz2 <- int0 11 nm_POINT nm_FRAMES ;;
-        mod_hdr (fun h => h_set_first_last h 0 (sub64 (z_to_usize fz2) 1))) ;;;
   rate <- float0 12 nm_POINT nm_RATE ;;
   s <- getS ;;
   k1 <- lift (f_key rate) ;;
@@ -225,12 +220,18 @@ Definition update_header (have_data : bool) : Mst unit :=
                   mod_hdr (fun h => h_set_byframe h q2)))
    end) ;;;
   ga <- get_group nm_ANALOG ;;
-  if negb (nlen (g_params ga) =? 0) then
+  (if negb (nlen (g_params ga) =? 0) then
     au <- int0 17 nm_ANALOG nm_USED ;;
     s <- getS ;;
     when (negb (z_to_usize au =? h_nb_analogs (hdr s)))
          (au2 <- int0 18 nm_ANALOG nm_USED ;; mod_hdr (fun h => h_set_nb_analogs h (z_to_usize au2)))
-  else mod_hdr (fun h => h_set_nb_analogs h 0).
+  else mod_hdr (fun h => h_set_nb_analogs h 0)) ;;;
+  (* the frame count of the header depends on its point and analog counts: compared last *)
+  fz <- int0 10 nm_POINT nm_FRAMES ;;
+  s <- getS ;;
+  when (negb (z_to_usize fz =? h_nb_frames (hdr s)))
+       (fz2 <- int0 11 nm_POINT nm_FRAMES ;;
+        mod_hdr (fun h => h_set_first_last h 0 (sub64 (z_to_usize fz2) 1))).
 
 (* ---------- c3d::updateParameters ---------- *)
 Fixpoint build_names (n : nat) (i : N) (name_of : N -> Mst bstr) : Mst (list bstr) :=
@@ -318,6 +319,7 @@ Definition update_parameters (newP newA : list bstr) : Mst unit :=
 (* c3d::parameter(groupName, p) *)
 Definition api_parameter (gname : bstr) (p : param) : Mst unit :=
   (if bstr_eqb (p_name p) [] then throw InvalidArgument else ret tt) ;;;
+  (match p_type p with TNone => throw RuntimeError | _ => ret tt end) ;;;
   s <- getS ;;
   gi <- catch (lift (group_idx (groups s) gname))
               (fun e => match e with
@@ -398,18 +400,33 @@ Fixpoint add_point_col_partial (idx : N) (news : list frame) (olds : list frame)
   | o :: ot, [] => (o :: ot, Some OutOfRange)
   end.
 
-Fixpoint point_cols (k : nat) (idx : N) (labels : list bstr) (news : list frame) : Mst unit :=
+(* validation pass of c3d::point(frames): for every new column, the name must be new and
+   every supplied frame must hold that point *)
+Fixpoint all_have_point (idx : N) (nfr : nat) (k : N) (news : list frame) : outcome unit :=
+  match nfr with
+  | O => Ok tt
+  | S n' => obind (idx_ 45 news k) (fun fr =>
+            obind (at_ (fr_pts fr) idx) (fun _ => all_have_point idx n' (k + 1) news))
+  end.
+Fixpoint validate_point_cols (k : nat) (idx : N) (labels : list bstr) (news : list frame) (nfr : nat) : outcome unit :=
+  match k with
+  | O => Ok tt
+  | S k' =>
+      obind (idx_ 41 news 0) (fun n0 =>
+      obind (at_ (fr_pts n0) idx) (fun p =>
+      if existsb (fun l => bstr_eqb (pt_name p) l) labels then Throw InvalidArgument
+      else obind (all_have_point idx nfr 0 news) (fun _ =>
+           validate_point_cols k' (idx + 1) labels news nfr)))
+  end.
+Fixpoint point_cols (k : nat) (idx : N) (news : list frame) : Mst unit :=
   match k with
   | O => ret tt
   | S k' =>
-      n0 <- lift (idx_ 41 news 0) ;;
-      p <- lift (at_ (fr_pts n0) idx) ;;
-      (if existsb (fun l => bstr_eqb (pt_name p) l) labels then throw InvalidArgument else ret tt) ;;;
       s <- getS ;;
       let '(fs, e) := add_point_col_partial idx news (frames s) in
       putS (set_frames s fs) ;;;
       (match e with Some x => throw x | None => ret tt end) ;;;
-      point_cols k' (idx + 1) labels news
+      point_cols k' (idx + 1) news
   end.
 
 (* c3d::point(frames) *)
@@ -419,7 +436,8 @@ Definition api_point_col (news : list frame) : Mst unit :=
   n0 <- lift (idx_ 42 news 0) ;;
   (if nlen (fr_pts n0) =? 0 then throw InvalidArgument else ret tt) ;;;
   labels <- strs_of nm_POINT nm_LABELS ;;
-  point_cols (length (fr_pts n0)) 0 labels news ;;;
+  lift (validate_point_cols (length (fr_pts n0)) 0 labels news (length (frames s))) ;;;
+  point_cols (length (fr_pts n0)) 0 news ;;;
   update_parameters [] [].
 
 (* c3d::point(name) *)
@@ -459,19 +477,41 @@ Fixpoint add_chan_col_partial (nsf : nat) (idx : N) (news : list frame) (olds : 
   | o :: ot, [] => (o :: ot, Some OutOfRange)
   end.
 
-Fixpoint chan_cols (k : nat) (idx : N) (labels : list bstr) (news : list frame) : Mst unit :=
+(* validation pass of c3d::analog(frames) *)
+Fixpoint all_subs_have (idx : N) (nsf : nat) (k : N) (osubs nsubs : list subframe) : outcome unit :=
+  match nsf with
+  | O => Ok tt
+  | S n' => obind (at_ osubs k) (fun _ =>
+            obind (at_ nsubs k) (fun sf =>
+            obind (at_ sf idx) (fun _ => all_subs_have idx n' (k + 1) osubs nsubs)))
+  end.
+Fixpoint all_have_chan (idx : N) (nsf : nat) (olds news : list frame) (k : N) : outcome unit :=
+  match olds with
+  | [] => Ok tt
+  | o :: ot => obind (idx_ 46 news k) (fun n =>
+               obind (all_subs_have idx nsf 0 (fr_subs o) (fr_subs n)) (fun _ =>
+               all_have_chan idx nsf ot news (k + 1)))
+  end.
+Fixpoint validate_chan_cols (k : nat) (idx : N) (labels : list bstr) (news olds : list frame) (nsf : nat) : outcome unit :=
+  match k with
+  | O => Ok tt
+  | S k' =>
+      obind (idx_ 43 news 0) (fun n0 =>
+      obind (at_ (fr_subs n0) 0) (fun sf0 =>
+      obind (at_ sf0 idx) (fun c =>
+      if existsb (fun l => bstr_eqb (ch_name c) l) labels then Throw InvalidArgument
+      else obind (all_have_chan idx nsf olds news 0) (fun _ =>
+           validate_chan_cols k' (idx + 1) labels news olds nsf))))
+  end.
+Fixpoint chan_cols (k : nat) (idx : N) (news : list frame) : Mst unit :=
   match k with
   | O => ret tt
   | S k' =>
-      n0 <- lift (idx_ 43 news 0) ;;
-      sf0 <- lift (at_ (fr_subs n0) 0) ;;
-      c <- lift (at_ sf0 idx) ;;
-      (if existsb (fun l => bstr_eqb (ch_name c) l) labels then throw InvalidArgument else ret tt) ;;;
       s <- getS ;;
       let '(fs, e) := add_chan_col_partial (N.to_nat (h_byframe (hdr s))) idx news (frames s) in
       putS (set_frames s fs) ;;;
       (match e with Some x => throw x | None => ret tt end) ;;;
-      chan_cols k' (idx + 1) labels news
+      chan_cols k' (idx + 1) news
   end.
 
 (* c3d::analog(frames) *)
@@ -483,7 +523,8 @@ Definition api_analog_col (news : list frame) : Mst unit :=
   sf0 <- lift (at_ (fr_subs n0) 0) ;;
   (if nlen sf0 =? 0 then throw InvalidArgument else ret tt) ;;;
   labels <- strs_of nm_ANALOG nm_LABELS ;;
-  chan_cols (length sf0) 0 labels news ;;;
+  lift (validate_chan_cols (length sf0) 0 labels news (frames s) (N.to_nat (h_byframe (hdr s)))) ;;;
+  chan_cols (length sf0) 0 news ;;;
   update_parameters [] [].
 
 (* c3d::analog(name) *)
